@@ -31,9 +31,14 @@ Rules == {"R1", "R2", "R3", "R4", "R5", "R6", "R7", "R8", "R9", "R10", "R11", "R
           "R17", "R18", "R19", "R20", "R21", "R22", "R23", "R24",
           \* collision rules against other sibling shapes: o = the colliding sibling is a proto3 optional
           \* field, x = it is a member of another (plain) oneof
-          "R15o", "R15x", "R17o", "R17x", "R19o", "R19x"}
-BaseRule(r) == CASE r \in {"R15o", "R15x"} -> "R15" [] r \in {"R17o", "R17x"} -> "R17" [] r \in {"R19o", "R19x"} -> "R19" [] OTHER -> r
-MessageRules == Rules \ {"R21", "R22", "R23", "R24"}
+          "R15o", "R15x", "R17o", "R17x", "R19o", "R19x",
+          \* the unbound-field rule by verb and by whether the configuration names a path at all
+          \* (v = verb only: the RPC stays on its default route), d = DELETE
+          "R24v", "R24d", "R24dv"}
+MethodRules == {"R21", "R22", "R23", "R24", "R24v", "R24d", "R24dv"}
+BaseRule(r) == CASE r \in {"R15o", "R15x"} -> "R15" [] r \in {"R17o", "R17x"} -> "R17" [] r \in {"R19o", "R19x"} -> "R19"
+                 [] r \in {"R24v", "R24d", "R24dv"} -> "R24" [] OTHER -> r
+MessageRules == Rules \ MethodRules
 
 \* the offending message "Bad" (full name given) for a message-level rule
 Bad(P, full, r) ==
@@ -83,7 +88,7 @@ Bad(P, full, r) ==
 
 \* the primary name an error message must mention for each rule
 OffenderName(r) == CASE r \in {"R14"} -> "a" [] r \in {"R17", "R18", "R19", "R17o", "R17x", "R19o", "R19x"} -> "o"
-                     [] r = "R21" -> "nope" [] r = "R22" -> "c" [] r = "R23" -> "a" [] r = "R24" -> "Do" [] OTHER -> "a"
+                     [] r = "R21" -> "nope" [] r = "R22" -> "c" [] r = "R23" -> "a" [] r \in {"R24", "R24v", "R24d", "R24dv"} -> "Do" [] OTHER -> "a"
 
 Placements == {"top", "nested", "otherfile", "imported"}
 \* with_valid: an unrelated valid annotation next to the offender; peer_msg: an earlier message that
@@ -124,12 +129,16 @@ C12MethodCase(P, r, sur) ==
   LET inMsg == CASE r = "R21" -> Msg("In2", FN(P, "In2"), <<F("a", "a", 1, "string", "one")>>)
                  [] r = "R22" -> Msg("In2", FN(P, "In2"), <<FRef("c", "c", 1, "message", "one", FN(P, "Child"))>>)
                  [] r = "R23" -> Msg("In2", FN(P, "In2"), <<Ann(F("a", "a", 1, "string", "one"), "query", TRUE)>>)
-                 [] r = "R24" -> Msg("In2", FN(P, "In2"), <<F("a", "a", 1, "string", "one"), F("b", "b", 2, "string", "one")>>)
+                 [] r \in {"R24", "R24d"} -> Msg("In2", FN(P, "In2"), <<F("a", "a", 1, "string", "one"), F("b", "b", 2, "string", "one")>>)
+                 [] r \in {"R24v", "R24dv"} -> Msg("In2", FN(P, "In2"), <<Ann(F("a", "a", 1, "string", "one"), "query", TRUE), F("b", "b", 2, "string", "one")>>)
       bad   == CASE r = "R21" -> Method("Do2", FN(P, "In2"), FN(P, "Out"), TRUE, Parts(TRUE, <<Lit("x"), Var("nope")>>, FALSE), "POST")
                  [] r = "R22" -> Method("Do2", FN(P, "In2"), FN(P, "Out"), TRUE, Parts(TRUE, <<Lit("x"), Var("c")>>, FALSE), "POST")
                  [] r = "R23" -> Method("Do2", FN(P, "In2"), FN(P, "Out"), TRUE, Parts(TRUE, <<Lit("x"), Var("a")>>, FALSE), "GET")
                  [] r = "R24" -> Method("Do", FN(P, "In2"), FN(P, "Out"), TRUE, Parts(TRUE, <<Lit("x"), Var("a")>>, FALSE), "GET")
-      ms    == IF r = "R24" THEN <<bad>> ELSE <<PostIn(P, FN(P, "In")), bad>>
+                 [] r = "R24d" -> Method("Do", FN(P, "In2"), FN(P, "Out"), TRUE, Parts(TRUE, <<Lit("x"), Var("a")>>, FALSE), "DELETE")
+                 [] r = "R24v" -> Method("Do", FN(P, "In2"), FN(P, "Out"), TRUE, NoParts, "GET")
+                 [] r = "R24dv" -> Method("Do", FN(P, "In2"), FN(P, "Out"), TRUE, NoParts, "DELETE")
+      ms    == IF BaseRule(r) = "R24" THEN <<bad>> ELSE <<PostIn(P, FN(P, "In")), bad>>
       extra == IF sur = "with_valid" THEN <<Good(P)>> ELSE <<>>
   IN Schema(<<File(P \o "/svc.proto", Pkg(P), GoPkg(P), TRUE, <<>>, <<Svc(P, ms)>>,
                    <<In(P), Out(P), Child(P), inMsg>> \o extra, <<>>)>>)
@@ -404,7 +413,8 @@ C13MethodCase(P, t) ==
 
 \* identifier shapes and service layouts
 C13Shapes == {"names", "keywords", "two_services_same_method", "two_services_headers", "no_services", "cross_file",
-              "nested_annotated", "oneof_members", "acronym_method", "two_service_files", "cross_package_types"}
+              "nested_annotated", "oneof_members", "acronym_method", "two_service_files", "cross_package_types",
+              "disc_oneof_scalars", "disc_oneof_mixed", "disc_oneof_flat", "disc_oneof_one_variant"}
 C13ShapeCase(P, sh) ==
   LET do(in, out) == Method("Do", in, out, TRUE, Parts(TRUE, <<Lit("do")>>, FALSE), "POST")
       one(msgs, ms) == Schema(<<File(P \o "/svc.proto", Pkg(P), GoPkg(P), TRUE, <<>>, <<Svc(P, ms)>>, <<Out(P), Child(P), Child2(P)>> \o msgs, <<EnumE, EnumPlain>>)>>)
@@ -462,6 +472,25 @@ C13ShapeCase(P, sh) ==
             one(<<MsgN("W", FN(P, "W"), <<FRef("i", "i", 1, "message", "one", FN(P, "W") \o ".Inner")>>,
                        <<Msg("Inner", FN(P, "W") \o ".Inner", <<Ann(F("n", "n", 1, "int64", "one"), "int64", "NUMBER"),
                                                               F("s", "s", 2, "string", "one")>>)>>)>>, <<do(FN(P, "W"), FN(P, "W"))>>)
+       \* discriminated oneofs by what their variants are: scalars only, scalars and messages, messages
+       \* only (flattened), a single variant
+       [] sh = "disc_oneof_scalars" ->
+            one(<<MsgO("W", FN(P, "W"), <<F("k", "k", 1, "string", "one"), InOneof(F("text", "text", 2, "string", "one"), "value"),
+                                         InOneof(F("number", "number", 3, "int64", "one"), "value"), InOneof(F("flag", "flag", 4, "bool", "one"), "value")>>,
+                       <<Oneof("value", TRUE, "kind", FALSE)>>)>>, <<do(FN(P, "W"), FN(P, "W"))>>)
+       [] sh = "disc_oneof_mixed" ->
+            one(<<MsgO("W", FN(P, "W"), <<InOneof(F("text", "text", 1, "string", "one"), "value"),
+                                         InOneof(Ann(FRef("c", "c", 2, "message", "one", FN(P, "Child")), "oneofValue", "kid"), "value"),
+                                         InOneof(FRef("e", "e", 3, "enum", "one", FN(P, "P")), "value")>>,
+                       <<Oneof("value", TRUE, "kind", FALSE)>>)>>, <<do(FN(P, "W"), FN(P, "W"))>>)
+       [] sh = "disc_oneof_flat" ->
+            one(<<MsgO("W", FN(P, "W"), <<F("k", "k", 1, "string", "one"), InOneof(FRef("a", "a", 2, "message", "one", FN(P, "Child")), "o"),
+                                         InOneof(FRef("b", "b", 3, "message", "one", FN(P, "Child2")), "o")>>,
+                       <<Oneof("o", TRUE, "type", TRUE)>>)>>, <<do(FN(P, "W"), FN(P, "W"))>>)
+       [] sh = "disc_oneof_one_variant" ->
+            one(<<MsgO("W", FN(P, "W"), <<InOneof(F("only", "only", 1, "string", "one"), "value")>>, <<Oneof("value", TRUE, "kind", FALSE)>>),
+                  MsgO("V", FN(P, "V"), <<InOneof(FRef("only", "only", 1, "message", "one", FN(P, "Child")), "value")>>, <<Oneof("value", TRUE, "kind", TRUE)>>)>>,
+                <<do(FN(P, "W"), FN(P, "V"))>>)
        [] sh = "oneof_members" ->
             one(<<MsgO("W", FN(P, "W"), <<InOneof(Ann(F("n", "n", 1, "int64", "one"), "int64", "NUMBER"), "o"),
                                          InOneof(Ann(F("b", "b", 2, "bytes", "one"), "bytes", "HEX"), "o"),
@@ -651,7 +680,7 @@ C18Case(P, sh) ==
 (* top-level message.                                                      *)
 (***************************************************************************)
 Constructs == {"kinds", "wkt", "wkt2", "int64num", "enumcustom", "enumnum", "nullable", "empty", "ts", "bytes", "oneof", "oneofflat", "flatten",
-               "flattenprefix", "unwraplist", "unwrapmap", "multiword", "int64rep", "plain", "required", "oneofplus", "explicit", "flattentwice", "bytesrules"}
+               "flattenprefix", "unwraplist", "unwrapmap", "multiword", "int64rep", "plain", "required", "oneofplus", "explicit", "flattentwice", "bytesrules", "oneofscalars", "unwrapmapplus"}
 \* the annotated message A (and the helper messages it needs)
 ConstructMsgs(P, c) ==
   LET a(fs) == Msg("A", FN(P, "A"), fs)
@@ -702,6 +731,13 @@ ConstructMsgs(P, c) ==
                                    FRef("iv", "iv", 6, "message", "one", "google.protobuf.Int64Value"), FRef("st", "st", 7, "message", "one", "google.protobuf.Struct")>>)>>
        [] c = "multiword"  -> <<a(<<Ann(F("big_number", "bigNumber", 1, "int64", "one"), "int64", "NUMBER"), F("plain_text", "plainText", 2, "string", "one"),
                                    F("with2digits", "with2digits", 3, "int32", "one")>>)>>
+       \* the value type of a map has an unwrap field AND another field
+       [] c = "unwrapmapplus" -> <<Msg("Lp", FN(P, "Lp"), <<Ann(FRef("items", "items", 1, "message", "rep", ch), "unwrap", TRUE), F("cursor", "cursor", 2, "string", "one")>>),
+                                   a(<<FMap("by_key", "byKey", 1, "string", "message", FN(P, "Lp")), F("sib_ling", "sibLing", 2, "string", "one")>>)>>
+       \* a discriminated oneof whose variants are scalars (and one message)
+       [] c = "oneofscalars" -> <<MsgO("A", FN(P, "A"), <<F("k", "k", 1, "string", "one"), InOneof(F("text", "text", 2, "string", "one"), "value"),
+                                     InOneof(F("number", "number", 3, "int64", "one"), "value"), InOneof(F("flag", "flag", 4, "bool", "one"), "value"),
+                                     InOneof(FRef("c", "c", 5, "message", "one", ch), "value")>>, <<Oneof("value", TRUE, "kind", FALSE)>>)>>
        \* length rules on bytes fields count bytes, in every rendering (base64 is 4 characters per 3 bytes)
        [] c = "bytesrules" -> LET MaxL(f, n) == [f EXCEPT !.rules = [f.rules EXCEPT !.maxLen = n]]
                                   MinL(f, n) == [f EXCEPT !.rules = [f.rules EXCEPT !.minLen = n]] IN
